@@ -14,8 +14,13 @@ native kinds natively, enumeration literals by name, dates through the ISO text 
 `null` (`C09_one_roundtrip`), many-valued attributes (`C09_many_roundtrip`), and "no duplicates" as a consequence of the
 C02 invariant for any load that performs Store operations on real targets (`C09_no_dup`).  References and order are the
 same layers as in C08 (C11, `C08_id_lookup`, `C08_reorder`).
-**Not proved**: the composition over a whole tree; decided on every run by the isomorphism oracle (with proxies standing
-for their targets) on generated (metamodel, model, options) triples.
+The composition is proved at the level of the JSON value tree (`Model/JsonDoc.lean`): `C09_tree_roundtrip` (any depth,
+every feature kind and option), `C09_document` (forest + two-pass resolution, given that tokens resolve back),
+`C09_document_fragment` (that hypothesis discharged for fragment addressing) and `C09_document_addressing` (… for every
+addressing mode — uuid, id attribute value, fragment — provided no two objects go by the same key).
+**Not proved**: the text level below the value tree (Python's `json` module), cross-resource references and proxies,
+and that pyecore's objects correspond to the model's trees; decided on every run by the correspondence (`driver jdoc`)
+and by the isomorphism oracle (with proxies standing for their targets) on generated (metamodel, model, options) triples.
 -/
 namespace Json
 
@@ -128,5 +133,18 @@ theorem C09_document_fragment (mm : MMX) (o : Opts) (hmm : MMJ mm) (single : Boo
     (jEncodeDoc mm o (renderPath single) roots).bind (jDecodeDoc mm o parsePath)
       = some (stripUuidL (roots.map (eff mm o true))) :=
   jdoc_roundtrip_fragment mm o hmm single roots hu hid hsingle hwf hrefs
+
+/-- **Document level, every addressing mode.**  Whatever addresses a target — its uuid, the value of its id attribute, or
+    its fragment path — nothing is left to assume about resolution, provided no two objects go by the same key. -/
+theorem C09_document_addressing (mm : MMX) (o : Opts) (hmm : MMJ mm) (hid : IdOK mm) (single : Bool) (roots : List (SNode Path))
+    (hsingle : single = true → roots.length = 1)
+    (hwf : ∀ r ∈ roots, WFG mm (fun _ => True) r)
+    (hrefs : ∀ r ∈ roots, AllRefs (Target mm single roots) r)
+    (huuid : o.uuid = true → ∀ q m, (q, m) ∈ allNodes mm roots → UuidTok m.uuid ∧ Word mm.ws m.uuid)
+    (hdist : ∀ q m q' m' k, (q, m) ∈ allNodes mm roots → (q', m') ∈ allNodes mm roots →
+      k ∈ keysOf mm o m → k ∈ keysOf mm o m' → q = q') :
+    (jEncodeDoc mm o (renderPath single) roots).bind (jDecodeDoc mm o parsePath)
+      = some (stripUuidL (roots.map (eff mm o true))) :=
+  jdoc_roundtrip_addr mm o hmm hid single roots hsingle hwf hrefs huuid hdist
 
 end JDoc
